@@ -816,11 +816,16 @@ impl TypeEntry {
                     })
                     .unzip();
 
+                // The raw name is used as a format string: escape braces.
+                let display_strs = match_strs
+                    .iter()
+                    .map(|s| s.replace('{', "{{").replace('}', "}}"));
+
                 quote! {
                     impl ::std::fmt::Display for #type_name {
                         fn fmt(&self, f: &mut ::std::fmt::Formatter<'_>) -> ::std::fmt::Result {
                             match *self {
-                                #(Self::#match_variants => write!(f, #match_strs),)*
+                                #(Self::#match_variants => write!(f, #display_strs),)*
                             }
                         }
                     }
